@@ -466,7 +466,7 @@ func (m *Machine) structEq(a, b Str) (Bool, bool) {
 			return p[0].Lit, "", true
 		case len(p) == 1:
 			return "", p[0].Big, true
-		case len(p) == 2 && p[0].Big == "" && p[1].Big != "" && strings.HasSuffix(p[0].Lit, "_"):
+		case len(p) == 2 && p[0].Big == "" && p[1].Big != "":
 			return p[0].Lit, p[1].Big, true
 		}
 		return "", "", false
@@ -476,15 +476,38 @@ func (m *Machine) structEq(a, b Str) (Bool, bool) {
 	if !oka || !okb {
 		return Bool{}, false
 	}
+	allDigits := func(s string) bool {
+		for i := 0; i < len(s); i++ {
+			if s[i] < '0' || s[i] > '9' {
+				return false
+			}
+		}
+		return len(s) > 0
+	}
 	switch {
 	case ba != "" && bb != "":
-		if la != lb {
+		if la == lb {
+			if ba == bb {
+				return CB(true), true
+			}
+			return Bool{S: "(= " + ba + " " + bb + ")"}, true
+		}
+		// different literals in front of two integer renderings: equal strings are only possible when one
+		// literal extends the other by digits (no separator between name and number): "CA 1"+"23" = "CA 12"+"3"
+		short, long := la, lb
+		if len(short) > len(long) {
+			short, long = long, short
+		}
+		if !strings.HasPrefix(long, short) {
 			return CB(false), true
 		}
-		if ba == bb {
-			return CB(true), true
+		rest := long[len(short):]
+		if !allDigits(rest) || rest[0] == '0' {
+			return CB(false), true // an integer rendering is digits only, without leading zero
 		}
-		return Bool{S: "(= " + ba + " " + bb + ")"}, true
+		// may coincide for suitable values (the exact digit relation is not modelled): arbitrary verdict
+		m.stubsRun["over-approx: name+number strings without separator may coincide"]++
+		return m.ex.NondetBool("digit_boundary_collision"), true
 	case ba == "" && bb == "":
 		return CB(la == lb), true
 	}
@@ -501,7 +524,7 @@ func (m *Machine) structEq(a, b Str) (Bool, bool) {
 		return CB(false), true
 	}
 	v, ok := new(big.Int).SetString(rest, 10)
-	if !ok || v.BitLen() > 126 {
+	if !ok || v.BitLen() > bigW-2 {
 		return CB(false), true
 	}
 	return Bool{S: "(= " + ba + " " + Big{V: v}.Term() + ")"}, true
